@@ -10,6 +10,10 @@
 //             expired while the result handler is still running)
 //     a / b   answers after half the timeout (healthy / unhealthy), the callback blocks for 5/6 of the timeout: each is
 //             shorter than the timeout, together they are longer (handler longer than the REMAINING timeout)
+//     r / q   answers at once (healthy / unhealthy) and the loop goroutine is HELD at the yield point between the receive
+//             of that answer and the c.checkTimeout.Stop() that follows it until the real timeout timer of this check
+//             has fired (yield point at the start of OnTimeout): the answer and the timeout of one check race, the
+//             answer wins the select. The callback returns at once.
 //     t       hangs for good: the checker's timeout must turn it into a network failure
 //     U       hangs for good and the callback of the timeout result blocks for 2x the timeout
 //     !       (suffix) while the callback of this check's result is running the session checker is stopped
@@ -21,7 +25,11 @@
 package c16
 
 import (
+	"bufio"
 	"fmt"
+	"os"
+	"path/filepath"
+	"sort"
 	"strings"
 	"sync"
 	"time"
@@ -65,6 +73,8 @@ type dispScript struct {
 	mu        sync.Mutex
 	pos       int    // number of CheckHealth calls so far
 	blocked   []bool // the callback of check i has already blocked once
+	raced     []bool // the loop was already held after the answer of check i
+	fired     chan struct{} // OnTimeout of this host's session checker has started (capacity 1)
 	netNext   bool   // OnTimeout ran: the next callback reports a network failure
 	trace     []byte
 	lastWord  uint64
@@ -102,9 +112,9 @@ func (s *dispSession) CheckHealth() bool {
 		return false
 	}
 	switch sc.checks[i].kind {
-	case 's', 'S':
+	case 's', 'S', 'r':
 		return true
-	case 'f', 'F':
+	case 'f', 'F', 'q':
 		return false
 	case 'a', 'b':
 		select {
@@ -124,7 +134,48 @@ func (s *dispSession) OnTimeout() {
 	s.sc.mu.Unlock()
 }
 
-func init() { healthcheck.RegisterSessionFactory(dispProto, dispFactory{}) }
+func init() {
+	healthcheck.RegisterSessionFactory(dispProto, dispFactory{})
+	healthcheck.VerifSetDispatchYield(dispYield)
+}
+
+// dispYield: the yield points of the dispatch loop (pkg/upstream/healthcheck/verif_dispatch_hooks.go)
+func dispYield(site int, host types.Host) {
+	v, ok := dispScripts.Load(host.AddressString())
+	if !ok {
+		return
+	}
+	sc := v.(*dispScript)
+	switch site {
+	case healthcheck.VerifSiteTimeoutFired:
+		select {
+		case sc.fired <- struct{}{}:
+		default:
+		}
+	case healthcheck.VerifSiteAnswerReceived:
+		sc.mu.Lock()
+		i := sc.pos - 1
+		hold := i >= 0 && i < len(sc.checks) && (sc.checks[i].kind == 'r' || sc.checks[i].kind == 'q') && !sc.raced[i]
+		if hold {
+			sc.raced[i] = true
+		}
+		sc.mu.Unlock()
+		if !hold {
+			return
+		}
+		// the answer of check i has been received, its timer is still running: let it fire
+		select {
+		case <-sc.fired: // left over from an earlier check's timeout
+		default:
+		}
+		select {
+		case <-sc.fired:
+			time.Sleep(2 * time.Millisecond) // the timer's goroutine reaches its send on c.timeout
+		case <-time.After(5 * dispTimeout):
+		case <-sc.done:
+		}
+	}
+}
 
 func (sc *dispScript) cb(host types.Host, changed bool, isHealthy bool) {
 	d := 0
@@ -192,7 +243,7 @@ func runDispatch(u, h uint32, w0 uint64, script string) (string, string) {
 	host := newHost(addr)
 	setWord(host, w0)
 	checks := parseDisp(script)
-	sc := &dispScript{checks: checks, blocked: make([]bool, len(checks)), done: make(chan struct{}), exhausted: make(chan struct{}),
+	sc := &dispScript{checks: checks, blocked: make([]bool, len(checks)), raced: make([]bool, len(checks)), fired: make(chan struct{}, 1), done: make(chan struct{}), exhausted: make(chan struct{}),
 		stopReq: make(chan int), cbDone: make(chan int)}
 	dispScripts.Store(addr, sc)
 	defer dispScripts.Delete(addr)
@@ -253,9 +304,11 @@ func genDispScript(c *hx.Ctx, u, h uint32, n int) string {
 			k = "sf"[c.Rng.Intn(2)]
 		case r < 62:
 			k = "SF"[c.Rng.Intn(2)]
-		case r < 84:
+		case r < 78:
 			k = "ab"[c.Rng.Intn(2)]
-		case r < 93:
+		case r < 90:
+			k = "rq"[c.Rng.Intn(2)]
+		case r < 95:
 			k = 't'
 		default:
 			k = 'U'
@@ -267,7 +320,7 @@ func genDispScript(c *hx.Ctx, u, h uint32, n int) string {
 			}
 		}
 		sb.WriteByte(k)
-		if k != 's' && k != 'f' && k != 't' && c.Rng.Chance(15) {
+		if k != 's' && k != 'f' && k != 't' && k != 'r' && k != 'q' && c.Rng.Chance(15) {
 			sb.WriteByte('!')
 		}
 	}
@@ -281,9 +334,28 @@ func runDispatchKind(c *hx.Ctx) {
 		s    string
 	}
 	var jobs []job
+	// corpus/C16/*.txt, lines `C16 hl <u> <h> <word0> <script>`: minimised past failures, run first
+	for _, t := range dispCorpus() {
+		var u, h uint32
+		var w uint64
+		fmt.Sscan(t[0], &u)
+		fmt.Sscan(t[1], &h)
+		fmt.Sscan(t[2], &w)
+		jobs = append(jobs, job{u, h, w, t[3]})
+		c.Count("hl.corpus")
+	}
 	// boundaries: threshold 1 (one bogus failure marks the host), a blocking handler at the check that completes a
 	// threshold, stop/restart under a blocked handler
 	for _, s := range []string{"S", "Ss", "SS", "a", "as", "Sf", "sSs", "FS", "fSs", "bas", "S!s", "a!s", "F!f", "U", "Us", "U!s", "tS", "SSS", "fFs", "ffSs", "aaa", "sas"} {
+		for _, th := range [][2]uint32{{1, 1}, {2, 1}, {1, 2}, {2, 2}} {
+			if c.Thorough() || th[0] == 1 || c.Rng.Chance(35) {
+				jobs = append(jobs, job{th[0], th[1], uint64(c.Rng.Intn(2)), s})
+			}
+		}
+	}
+	// the answer of a check and the expiry of its timeout timer race (the timer fires between the receive of the answer
+	// and the Stop): one check, one result - with unhealthy threshold 1 a second one marks a healthy host
+	for _, s := range []string{"r", "rs", "rr", "q", "sr", "rf", "qs", "rSs", "tr", "ra", "fqr", "rrs", "r", "rs"} {
 		for _, th := range [][2]uint32{{1, 1}, {2, 1}, {1, 2}, {2, 2}} {
 			if c.Thorough() || th[0] == 1 || c.Rng.Chance(35) {
 				jobs = append(jobs, job{th[0], th[1], uint64(c.Rng.Intn(2)), s})
@@ -323,8 +395,37 @@ func runDispatchKind(c *hx.Ctx) {
 		if strings.Contains(s, "!") {
 			c.Count("hl.with_stop_restart_under_handler")
 		}
+		if strings.ContainsAny(s, "rq") {
+			c.Count("hl.with_answer_racing_timeout")
+		}
 		if strings.ContainsAny(s, "tU") {
 			c.Count("hl.with_timeout")
 		}
 	}
+}
+
+func dispCorpus() [][]string {
+	wd, _ := os.Getwd()
+	var files []string
+	for _, d := range []string{filepath.Join(wd, "..", "..", "corpus", "C16"), filepath.Join(wd, "corpus", "C16")} {
+		m, _ := filepath.Glob(filepath.Join(d, "*.txt"))
+		files = append(files, m...)
+	}
+	sort.Strings(files)
+	var out [][]string
+	for _, fn := range files {
+		fh, err := os.Open(fn)
+		if err != nil {
+			continue
+		}
+		sc := bufio.NewScanner(fh)
+		for sc.Scan() {
+			t := strings.Fields(strings.TrimSpace(sc.Text()))
+			if len(t) >= 6 && t[0] == "C16" && t[1] == "hl" && strings.Trim(t[5], "sfSFabtUrq!") == "" {
+				out = append(out, t[2:6])
+			}
+		}
+		fh.Close()
+	}
+	return out
 }
